@@ -656,3 +656,37 @@ func knownNilAt(v ssa.Value, b *ssa.BasicBlock) bool {
 	}
 	return false
 }
+
+// okTest: one branch on the `ok` result of a comma-ok map lookup (directly or negated).
+type okTest struct {
+	iff             *ssa.If
+	found, notFound *ssa.BasicBlock
+}
+
+func okTestsOf(lk *ssa.Lookup) []okTest {
+	var out []okTest
+	if !lk.CommaOk || lk.Referrers() == nil {
+		return nil
+	}
+	for _, r := range *lk.Referrers() {
+		ex, ok := r.(*ssa.Extract)
+		if !ok || ex.Index != 1 || ex.Referrers() == nil {
+			continue
+		}
+		for _, rr := range *ex.Referrers() {
+			switch x := rr.(type) {
+			case *ssa.If:
+				out = append(out, okTest{x, x.Block().Succs[0], x.Block().Succs[1]})
+			case *ssa.UnOp:
+				if x.Op == token.NOT && x.Referrers() != nil {
+					for _, r3 := range *x.Referrers() {
+						if iff, ok := r3.(*ssa.If); ok {
+							out = append(out, okTest{iff, iff.Block().Succs[1], iff.Block().Succs[0]})
+						}
+					}
+				}
+			}
+		}
+	}
+	return out
+}
